@@ -1,8 +1,9 @@
+\* fee allowances: registry transactions of holders of locked eFUND paid by a fee granter
 SPECIFICATION Spec
 CONSTANTS
-  WithFeeGrant = FALSE
+  WithFeeGrant = TRUE
   MaxHeight = 4
-  MaxTx = 5
+  MaxTx = 4
   MaxFail = 1
   Amounts <- AmountsQuick
 VIEW View
